@@ -476,8 +476,18 @@ def main(run: Run, audit):
     with Pool(min(16, len(cfgs))) as pool:
         outs = pool.map(one_config, [(c, run.tier, base) for c in cfgs], chunksize=1)
     jobs = [(o['cfg'], sn, kk) for o in outs for (kk, sn) in o.get('chosen', [])]
-    with Pool(16) as pool:
-        conts = pool.map(continuation, jobs, chunksize=1)
+    # continuations under a watchdog: a resumed run() that spins must not hang the check
+    pool = Pool(16)
+    asyncs = [pool.apply_async(continuation, (j,)) for j in jobs]
+    t_end = time.time() + (1800 if run.tier == 'quick' else 10800)
+    conts = []
+    for j, a in zip(jobs, asyncs):
+        try:
+            conts.append(a.get(timeout=max(1.0, t_end - time.time())))
+        except Exception as e:     # noqa  (multiprocessing.TimeoutError or a worker crash)
+            conts.append((j[2], None, True, 'no return from the resumed run() (%s): it spins or hangs' % type(e).__name__))
+    pool.terminate()
+    pool.join()
     fails = []
     n_cont = 0
     for o in outs:
@@ -551,10 +561,12 @@ def main(run: Run, audit):
         force = dict(resumes=3 + i % 3, toggles=i % 2, max_batches=200 if run.tier == 'quick' else 700, max_seconds=60 if run.tier == 'quick' else 240,
                      family=['gauss', 'plateau', 'twomode', 'funnel', 'halfspace', 'periodic'][i % 6], direct_every=False)
         cjobs.append((T.make_config(rng, i, run.tier, force), 'C05', dict(tmp=run.tmp)))
-    with Pool(min(16, n_ctl)) as pool:
-        cres_ctl = pool.map(shellfam.worker, cjobs, chunksize=1)
+    cres_ctl = shellfam.run_jobs(cjobs, run.tmp, 'C05')
     ctl_events = ctl_resumes = 0
     for r in cres_ctl:
+        if 'hung' in r:
+            fails.append((r['cfg'], 'a traced run with resumes did not come back (run() spins or hangs after a resume): ' + r['hung'], -1))
+            continue
         if 'crashed' in r:
             fails.append((r['cfg'], 'harness exception in the traced control-layer run: ' + r['crashed'][-300:], -1))
             continue
